@@ -138,6 +138,45 @@ func runMcast(c *Case) []string {
 				events = append(events, fmt.Sprintf("R%s:%d:%d:%d:%s:latest=%d", cb, loopErrClass(err), got, srcID(from), bytesRepr(data[:got]), where))
 			})
 			return tail("")
+		case "chain":
+			// chain <n> <buflen>: n datagrams are queued; every read callback re-issues the read with a FRESH buffer (so some reads
+			// are deferred at the dispatch limit and completed by the poller); every completion must land in its own buffer
+			n, bl := atoi(a[0]), atoi(a[1])
+			done := 0
+			var issue func(k int)
+			issue = func(k int) {
+				b := make([]byte, bl+4)
+				for i := range b {
+					b[i] = 0xEE
+				}
+				peer.AsyncRead(b[:bl:bl], func(err error, got int, from netip.AddrPort) {
+					where := 1
+					if got < 0 || got > bl {
+						got = 0
+					}
+					if got > 0 {
+						all := true
+						for _, x := range b[:got] {
+							if x != 0xEE {
+								all = false
+							}
+						}
+						if all && got > 2 {
+							where = 0 // nothing was written into the buffer designated for this read
+						}
+					}
+					events = append(events, fmt.Sprintf("R%d:%d:%d:%d:%s:latest=%d", 100+k, loopErrClass(err), got, srcID(from), bytesRepr(b[:got]), where))
+					done++
+					if done < n {
+						issue(k + 1)
+					}
+				})
+			}
+			issue(0)
+			for i := 0; i < 4*n && done < n; i++ {
+				_, _ = ioc.PollOne()
+			}
+			return tail("")
 		case "setbuf":
 			n := atoi(a[0])
 			b := make([]byte, n+4)
